@@ -3,6 +3,7 @@ package checks
 import (
 	"fmt"
 	"net/netip"
+	"syscall"
 	"time"
 
 	"github.com/pion/ice/v4"
@@ -149,6 +150,13 @@ func runC01(c *core.Ctx) {
 		}
 	}
 	cfg.NATA, cfg.NATB = k.natA, k.natB
+	if k.restart && !k.aliasA && !k.aliasB && !k.relayA && !k.relayB && k.natA == 0 && k.natB == 0 && c.T.Bias(1, 2, "fixed-port") {
+		// a one-port range: after a Restart the re-gathered candidates sit on the very transport addresses of
+		// the previous session (as with a UDP mux, or a fixed media port)
+		cfg.OptsA = append(cfg.OptsA, ice.WithPortRange(6000, 6000))
+		cfg.OptsB = append(cfg.OptsB, ice.WithPortRange(6000, 6000))
+		c.Fault("same-transport-addresses-after-restart")
+	}
 	d, err := rig.NewDuo(c, cfg)
 	if err != nil {
 		c.Failf("harness/setup", "%v", err)
@@ -384,6 +392,8 @@ func (s *c01Session) generation(gen int) {
 	// rounds, so the fault phase also ends as soon as any pair has used maxReq-2 of its requests.
 	reqCount := map[[2]netip.AddrPort]int{}
 	maxUsed := 0 // requests used by the busiest pair, as of the last budgetLeft()
+	errUsed := 0 // requests (per pair, upper bound) that a socket refused with an error
+	errLeft := 2
 	budgetLeft := func() bool {
 		d.W.Lock()
 		wire := d.Wire[wireSeen:]
@@ -401,6 +411,7 @@ func (s *c01Session) generation(gen int) {
 		}
 		maxUsed = 0
 		for _, n := range reqCount {
+			n += errUsed // requests refused by the socket never reached the wire, yet they used up budget
 			if n >= k.maxReq-2 {
 				ok = false
 			}
@@ -414,11 +425,35 @@ func (s *c01Session) generation(gen int) {
 		steps++
 		if len(pend) > 0 && c.T.Bias(1, 6, "signalnow") {
 			doOne(c.T.Choose(len(pend), "whichsignal"))
+		} else if errLeft > 0 && k.maxReq-2-maxUsed-errUsed > 3 && c.T.Bias(1, 40, "sock-write-error") {
+			// socket fault: for one check interval the operating system refuses every send of one agent with an
+			// error (ENOBUFS, ENETUNREACH): each of its pairs loses at most two requests - a loss like any other
+			errLeft--
+			errUsed += 2
+			h := []*simnet.Host{d.HA, d.HB}[c.T.Choose(2, "errhost")]
+			var socks []*simnet.Sock
+			for _, so := range d.W.Sockets() {
+				if so.Host() == h && so.Tag != "service" && !so.Closed() {
+					socks = append(socks, so)
+				}
+			}
+			d.W.Lock()
+			for _, so := range socks {
+				so.WriteErr = syscall.ENOBUFS
+			}
+			d.W.Unlock()
+			c.Fault("socket-write-error")
+			d.S.Advance(k.checkInterval)
+			d.W.Lock()
+			for _, so := range socks {
+				so.WriteErr = nil
+			}
+			d.W.Unlock()
 		} else {
 			remaining := faultEnd - c.Now()
 			// never advance past the end of the fault budget - neither in time nor in requests: a jump of
 			// n check intervals makes every pair use up to n more of its requests at once
-			if byReq := time.Duration(k.maxReq-2-maxUsed) * k.checkInterval; byReq < remaining {
+			if byReq := time.Duration(k.maxReq-2-maxUsed) * k.checkInterval; byReq < remaining { // (maxUsed includes errUsed)
 				remaining = byReq
 			}
 			saved := d.S.Deltas
